@@ -236,6 +236,7 @@ pub fn run_case(prop: &str, case: &AnyCase) -> RunReport {
             let out = pipesim::run_write(pc, false);
             let mut py = false;
             let mut info_tool = false;
+            let mut zoom_tool = false;
             let verdict = match prop {
                 "C01" => checks::check_c01(pc, &out),
                 "C02" => checks::check_c02(pc, &out),
@@ -249,7 +250,15 @@ pub fn run_case(prop: &str, case: &AnyCase) -> RunReport {
                         v
                     }
                 }
-                "C07" | "C08" => checks::check_zooms(pc, &out),
+                "C07" | "C08" => {
+                    let v = checks::check_zooms(pc, &out);
+                    if prop == "C08" && v == Verdict::Pass && hash_bytes(&out.image) % 16 == 0 {
+                        zoom_tool = true;
+                        checks::check_c08_zoom_tool(pc, &out.image)
+                    } else {
+                        v
+                    }
+                }
                 "C09" => {
                     let v = checks::check_c09(pc, &out);
                     // a sample of the images is also judged by the Python decoder (every image in a replay)
@@ -267,6 +276,9 @@ pub fn run_case(prop: &str, case: &AnyCase) -> RunReport {
             let mut stats = pipe_stats(pc, &out);
             if py {
                 stats.counters.insert("images_judged_by_python_decoder".into(), 1);
+            }
+            if zoom_tool {
+                stats.counters.insert("files_through_bigbedtobed_zoom".into(), 1);
             }
             if info_tool && std::env::var("VERIF_BIGTOOLS_BIN").map(|b| std::path::Path::new(&b).exists()).unwrap_or(false) {
                 stats.counters.insert("files_through_info_tool(subprocess)".into(), 1);
